@@ -1,6 +1,7 @@
 package eventloop
 
 import (
+	"math"
 	"sync"
 	"sync/atomic"
 	"time"
@@ -103,6 +104,18 @@ func WithRegistry(registry *require.Registry) Option {
 	}
 }
 
+// msToDuration converts a delay in milliseconds to a time.Duration, saturating instead of wrapping around.
+func msToDuration(ms int64) time.Duration {
+	const maxMs = math.MaxInt64 / int64(time.Millisecond)
+	if ms > maxMs {
+		return math.MaxInt64
+	}
+	if ms < -maxMs {
+		return math.MinInt64
+	}
+	return time.Duration(ms) * time.Millisecond
+}
+
 func (loop *EventLoop) schedule(call goja.FunctionCall, repeating bool) goja.Value {
 	if fn, ok := goja.AssertFunction(call.Argument(0)); ok {
 		delay := call.Argument(1).ToInteger()
@@ -116,12 +129,12 @@ func (loop *EventLoop) schedule(call goja.FunctionCall, repeating bool) goja.Val
 		var ret goja.Value
 		if repeating {
 			interval := loop.newInterval(f)
-			interval.start(loop, time.Duration(delay)*time.Millisecond)
+			interval.start(loop, msToDuration(delay))
 			job = &interval.job
 			ret = loop.vm.ToValue(interval)
 		} else {
 			timeout := loop.newTimeout(f)
-			timeout.start(loop, time.Duration(delay)*time.Millisecond)
+			timeout.start(loop, msToDuration(delay))
 			job = &timeout.job
 			ret = loop.vm.ToValue(timeout)
 		}
